@@ -72,7 +72,9 @@ def apply(ctx, res, rule_prefixes, strict_only=True, lenient_only=False, pid=Non
     """Copy the product findings whose rule starts with one of the prefixes into the result.
     relative=True (C12): a lenient valuation is judged against the strict one — a deviation from the reference that the
     strict parser shows in exactly the same way is not a defect of the *extension* (it belongs to C01/C02/C05/C07);
-    reported are the deviations that exist under the lenient valuation only, or under the strict valuation only."""
+    reported are the deviations that exist under the lenient valuation and not, under the same key, under the strict one.
+    (Deviations of the strict parser alone are reported by the strict checks; attributing them to C12 as well produced
+    false alarms, because error-kind deviations around surrogates legitimately differ between the modes.)"""
     prod = run_product(ctx)
     K = prod["K"]
     states = trans = 0
@@ -93,11 +95,6 @@ def apply(ctx, res, rule_prefixes, strict_only=True, lenient_only=False, pid=Non
         trans += run["transitions"]
         tag = "strict" if strict else "options(truncated=%d,invalid=%d)" % (o["accept_truncated_surrogate_pair"], o["accept_invalid_codepoints"])
         n = 0
-        if relative:
-            here = set((f["rule"], f["key"]) for f in run["findings"])
-            for (r_, k_) in sorted(strict_keys - here):
-                res.violation("C12.rel", "C12.rel/%s/strict-only/%s/%s" % (tag, r_, k_),
-                              "[%s] the strict parser deviates from the reference (%s: %s) but the parser under these options does not: the two modes disagree on more than surrogate escapes" % (tag, r_, k_))
         for f in run["findings"]:
             if any(f["rule"].startswith(p) for p in rule_prefixes):
                 if relative and (f["rule"], f["key"]) in strict_keys:
